@@ -254,6 +254,10 @@ func (w *Walker) parseRoutingRule(ctx dae_config.IRoutingRuleContext) *RoutingRu
 	} else {
 		panic("unknown outboundExpr")
 	}
+	if outbound == nil {
+		// The error has been reported by parseFunctionPrototype (e.g. empty parameter list).
+		return nil
+	}
 	return &RoutingRule{
 		AndFunctions: andFunctions,
 		Outbound:     *outbound,
